@@ -26,6 +26,9 @@ var c12 = Register("C12", "C12.bid", func(a c12Args) *Violation {
 	if err != nil || len(b) != 16 {
 		return violf("MarshalBinary(%s): len %d err %v", a.V, len(b), err)
 	}
+	if v := ownedBytes("MarshalBinary("+a.V.String()+")", b, func() []byte { r, _ := d.MarshalBinary(); return r }); v != nil {
+		return v
+	}
 	hi, lo := binary.BigEndian.Uint64(b[:8]), binary.BigEndian.Uint64(b[8:])
 	n := ref.DecodeBits(hi, lo) // independent decoder applied to the emitted bytes
 
